@@ -72,12 +72,18 @@ fn check(ops: &[Op], st: &mut Stats) -> String {
     let got = Want { reqi: isi.reqi.0, udpport: isi.udpport, flags: isi.flags.bits(), prefix: isi.prefix as u32, interval: isi.interval.as_millis().min(u64::MAX as u128) as u64, admin: isi.admin.clone(), iname: isi.iname.clone(), compressed: w.compressed };
     if got != w { st.fail(format!("[C18] ISI is {:?}, the configured options are {:?}", got, w), id.clone()); }
     if isi.version != 9 { st.fail(format!("[C18] ISI version {}", isi.version), id.clone()); }
+    // the frame itself, byte by byte from the configured options (IS_ISI: Size Type ReqI Zero UDPPort Flags InSimVer Prefix Interval Admin[16] IName[16])
+    if w.prefix < 256 && w.interval <= 65535 && w.admin.is_ascii() && w.iname.is_ascii() && w.admin.len() <= 16 && w.iname.len() <= 16 {
+        let mut f = vec![if w.compressed { 11u8 } else { 44 }, 1, w.reqi, 0]; f.extend(w.udpport.to_le_bytes()); f.extend(w.flags.to_le_bytes()); f.push(9); f.push(w.prefix as u8); f.extend((w.interval as u16).to_le_bytes());
+        let mut a = w.admin.as_bytes().to_vec(); a.resize(16, 0); f.extend(a); let mut n = w.iname.as_bytes().to_vec(); n.resize(16, 0); f.extend(n);
+        match encode_p(w.compressed, &Packet::Isi(isi.clone())) { Enc::Ok(e) if e == f => {}, Enc::Ok(e) => { let at = e.iter().zip(f.iter()).position(|(x, y)| x != y).unwrap_or(e.len().min(f.len())); st.fail(format!("[C18] the handshake frame differs from the configured options at byte {at}: {} instead of {}", hex(&e), hex(&f)), id.clone()); }, Enc::Err => st.fail(format!("[C18] the handshake of a representable configuration is refused ({:?})", w), id.clone()), Enc::Panic => {} }
+    }
     match encode_p(w.compressed, &Packet::Isi(isi)) { Enc::Ok(f) => format!("{} ok:{}", mode_tag(w.compressed), hex(&f)), Enc::Err => format!("{} enc:E", mode_tag(w.compressed)), Enc::Panic => { st.fail("[C18] encoding the ISI of this configuration panics".into(), id.clone()); format!("{} enc:P", mode_tag(w.compressed)) } }
 }
 
 fn alphabet() -> Vec<Op> {
     let mut v = vec![Op::Tcp, Op::Udp(None), Op::Udp(Some(40000)), Op::Relay, Op::Mode(true), Op::Mode(false), Op::Admin(Some("secret".into())), Op::Admin(Some("0123456789abcdef".into())), Op::Admin(None), Op::Reqi(7), Op::Flags(0), Op::Flags(0x0ffc), Op::Flags(36),
-                     Op::Prefix(Some('!')), Op::Prefix(None), Op::Iname(Some("verif".into())), Op::Iname(Some("A-16-char-name-x".into())), Op::Iname(None), Op::Interval(Some(500)), Op::Interval(None), Op::Interval(Some(65535)), Op::Interval(Some(65001)), Op::Interval(Some(65536)), Op::Interval(Some(u64::MAX))];
+                     Op::Prefix(Some('!')), Op::Prefix(Some('\u{a7}')), Op::Prefix(None), Op::Iname(Some("verif".into())), Op::Iname(Some("A-16-char-name-x".into())), Op::Iname(None), Op::Interval(Some(500)), Op::Interval(None), Op::Interval(Some(65535)), Op::Interval(Some(65001)), Op::Interval(Some(65536)), Op::Interval(Some(u64::MAX))];
     for i in 0..10 { v.push(Op::Flag(i, true)); } for i in [0usize, 1, 5, 9] { v.push(Op::Flag(i, false)); }
     v.push(Op::Other(0)); v.push(Op::Other(2));
     v
@@ -146,7 +152,7 @@ pub fn run(a: &Args) {
     // random long sequences with random arguments
     for _ in 0..(if a.thorough() { 50_000 } else { 5_000 }) {
         let len = rng.range(4, 30) as usize;
-        let ops: Vec<Op> = (0..len).map(|_| match rng.below(12) { 0 => Op::Flags(rng.next() as u16 & 0x0fff), 1 => Op::Reqi(rng.byte()), 2 => Op::Interval(Some(rng.below(65536))), 3 => Op::Udp(if rng.chance(1, 2) { Some(rng.range(1, 65535) as u16) } else { None }), 4 => Op::Flag(rng.below(10) as usize, rng.chance(1, 2)), 5 => Op::Prefix(Some((rng.range(33, 126) as u8) as char)), 6 => Op::Admin(Some(String::from_utf8({ let l = *rng.pick(&[0usize, 1, 10, 15, 16, 17, 24]); crate::layout::ascii_text(&mut rng, l) }).unwrap())), 7 => Op::Iname(Some(String::from_utf8({ let l = *rng.pick(&[0usize, 1, 14, 15, 16, 17, 24]); crate::layout::ascii_text(&mut rng, l) }).unwrap())), _ => rng.pick(&al).clone() }).collect();
+        let ops: Vec<Op> = (0..len).map(|_| match rng.below(12) { 0 => Op::Flags(rng.next() as u16 & 0x0fff), 1 => Op::Reqi(rng.byte()), 2 => Op::Interval(Some(rng.below(65536))), 3 => Op::Udp(if rng.chance(1, 2) { Some(rng.range(1, 65535) as u16) } else { None }), 4 => Op::Flag(rng.below(10) as usize, rng.chance(1, 2)), 5 => Op::Prefix(Some(if rng.chance(1, 3) { (rng.range(0xa1, 0xff) as u8) as char } else { (rng.range(33, 126) as u8) as char })), 6 => Op::Admin(Some(String::from_utf8({ let l = *rng.pick(&[0usize, 1, 10, 15, 16, 17, 24]); crate::layout::ascii_text(&mut rng, l) }).unwrap())), 7 => Op::Iname(Some(String::from_utf8({ let l = *rng.pick(&[0usize, 1, 14, 15, 16, 17, 24]); crate::layout::ascii_text(&mut rng, l) }).unwrap())), _ => rng.pick(&al).clone() }).collect();
         let o = check(&ops, &mut st); st.evaluations += 1; st.distinct_nontrivial += 1;
         out.case(&format!("builder {}", ops.iter().map(tok).collect::<Vec<_>>().join(" ")), &o);
     }
